@@ -9,7 +9,7 @@
 """
 import importlib
 
-from vp.core import SL, Condition, choose, guard, native
+from vp.core import SL, Condition, choose, excluded, guard, native
 from vp.harness import c08 as L
 from vp.harness import schedprog as P
 from vp.stubs.schedlab import Lab
@@ -206,8 +206,12 @@ def flaky_full(salt):
 HSTEPS = [("ok", True), ("fail", True), ("ok", False), ("fail", False)]
 
 
-def _history(steps, shallow):
-    """Successive executions of the same call on one backend; each step: (environment ok/fail, backend cache on/off)."""
+FID_STALE = "repeated-identical-failure-keeps-old-call-node-timestamp"
+
+
+def _history(steps, shallow, tolerate=False):
+    """Successive executions of the same call on one backend; each step: (environment ok/fail, backend cache on/off).
+    Returns (ok, detail, finding id or None).  tolerate: the listed finding's class is accepted."""
     from redun import Scheduler
     import logging
     logging.disable(logging.CRITICAL)
@@ -217,6 +221,8 @@ def _history(steps, shallow):
     salt = P.new_salt()
     last_failed = False
     had_success = False
+    failed_before_last_success = False  # a failure was recorded, then a success: a later identical failure re-uses the old record
+    had_failure = False
     trace = []
     for mode, cache in steps:
         _FLAKY["fail"] = (mode == "fail")
@@ -231,20 +237,26 @@ def _history(steps, shallow):
         # failed is executed again; with full checking an older successful single-reduction entry may legitimately be
         # replayed (tasks are assumed deterministic) - what is never replayed is the failure itself
         must_run = (not cache) or not had_success or (shallow and last_failed)
-        if must_run and ran != 1:
+        listed = bool(cache and had_success and shallow and last_failed and failed_before_last_success and ran == 0)
+        if must_run and ran != 1 and not (listed and tolerate):
             return False, "history %r: the body was %s although %s" % (
                 trace, "not executed" if ran == 0 else "executed %d times" % ran,
-                "the previous execution of this call failed" if last_failed else "nothing could be replayed")
+                "the previous execution of this call failed" if last_failed else "nothing could be replayed"), (
+                FID_STALE if listed else None)
         if ran:
             if mode == "fail" and not (out[0] == "error" and isinstance(out[1], ConnectionError) and str(out[1]) == "down"):
-                return False, "history %r: the body raised ConnectionError('down') but run gave %r" % (trace, out)
+                return False, "history %r: the body raised ConnectionError('down') but run gave %r" % (trace, out), None
             if mode == "ok" and out != ("ok", ("ok", salt)):
-                return False, "history %r: run gave %r" % (trace, out)
+                return False, "history %r: run gave %r" % (trace, out), None
             last_failed = (mode == "fail")
-            had_success = had_success or mode == "ok"
+            if mode == "ok":
+                had_success = True
+                failed_before_last_success = had_failure
+            else:
+                had_failure = True
         elif out != ("ok", ("ok", salt)):
-            return False, "history %r: replay produced %r" % (trace, out)
-    return True, "ok"
+            return False, "history %r: replay produced %r" % (trace, out), None
+    return True, "ok", None
 
 
 def c12_history(k: int) -> bool:
@@ -254,7 +266,8 @@ def c12_history(k: int) -> bool:
     def body():
         n, shallow = SL()
         steps = [HSTEPS[choose(len(HSTEPS), "step")] for _ in range(n)]
-        return native(lambda: _history(steps, bool(shallow))[0])
+        tol = excluded(FID_STALE)
+        return native(lambda: _history(steps, bool(shallow), tol)[0])
     return guard(body, k=k)
 
 
@@ -302,8 +315,8 @@ def replay(cond, args, extra):
     if cond == "c12_history":
         n, shallow = extra["slice"]
         steps = [HSTEPS[c[1]] for c in extra["choices"]][:n]
-        ok, detail = _history(steps, bool(shallow))
-        return (not ok), detail, None
+        ok, detail, fid = _history(steps, bool(shallow))
+        return (not ok), detail, fid
     if cond == "c12_get_cache":
         ch = [c[1] for c in extra["choices"]]
         ok, detail = _get_cache_case(ch[0], ch[1])
